@@ -132,6 +132,10 @@ func (r *RNG) MetadataBytes() []byte {
 		if r.Chance(15) {
 			vals[r.Intn(4)] = r.F32()
 		}
+		if r.Chance(25) {
+			// a non-finite or inverted value in one of the four slots
+			vals[r.Intn(4)] = bits([]uint32{0x7f800000, 0xff800000, 0x7fc00000, 0xffc00000, 0x7f800000, 0xff800000, 0x7f800004, 0xff7fffff}[r.Intn(8)])
+		}
 		for _, v := range vals {
 			if r.Chance(60) {
 				body = append(body, coordBytes(v, r)...)
